@@ -32,6 +32,10 @@ LEVEL_TEXT = {
            "read declaratively, and (b) duplicate rejection, naming of duplicated names and order of appearance by symbolic "
            "execution of IDL::from_token's MIR for every list of 1-4 (thorough: 5) members with arbitrary kinds and names; "
            "reduced: field types and documentation strings of the resulting structure are not compared",
+    "C07": "SMT-decided, on all paths of the MIR of MethodCall::send and MethodCall::recv from every state of the reader / writer "
+           "slots: one call at a time (busy and called-already refusals write nothing and change nothing, a free connection gets "
+           "exactly one message with the call mode's flags), stream ownership after send and after every kind of reply, success "
+           "exactly for a reply without error member; reduced: one thread, the error-name mapping is outside",
     "C19": "SMT-decided, on all paths of each step function's MIR (test01..test11, end) and of the client table: the success reply "
            "is produced only for the canonical request of a client that is known and in that step, and is produced for it; "
            "reduced: value comparison and parameter deserialization are free booleans, Start and time-outs are outside",
@@ -48,8 +52,12 @@ LEVEL_TEXT = {
 }
 
 
-ENGINE_OF = {"C11": "smt-grammar", "C19": "smt-mir"}
+ENGINE_OF = {"C11": "smt-grammar", "C19": "smt-mir", "C07": "smt-mir"}
 TECHNIQUE = {
+    "C07": "z3 (SMT) over a path-by-path symbolic execution of the rustc MIR of MethodCall::send and MethodCall::recv (dumped from "
+           "/repo on every run) from an arbitrary state of the connection's and the call's stream slots, callees replaced by "
+           "contract models; per path the query `path condition and not property` must be unsat; a model is a slot state + call "
+           "mode / reply shape, replayed on real Connection / MethodCall objects over in-memory streams",
     "C19": "z3 (SMT) over a path-by-path symbolic execution of the rustc MIR of the certification service's step functions and "
            "client table (dumped from /repo on every run), callees replaced by contract models; per path the query `path "
            "condition and not property` must be unsat; a model is a request shape, replayed against the real server process",
